@@ -5,13 +5,20 @@ from . import cu
 
 MODULES = ['DsdVerif.Props.C09']
 GEN_FILES = []
-THEOREM_NAMES = ['split_spec', 'split_connected_id', 'split_fuel_mono', 'split_parts_wellformed']
+THEOREM_NAMES = ['split_spec', 'split_connected_id', 'split_fuel_mono', 'split_parts_wellformed',
+                 # object level (World model): Props/C09Obj.lean
+                 'splitC_connected_self', 'splitC_no_fault', 'splitC_components', 'splitC_twice', 'splitC_refusal_reason',
+                 'inv_empty', 'inv_mkDom', 'inv_mkCplx', 'inv_mkCplxByNames', 'inv_splitC', 'inv_setTurns', 'inv_queryC', 'inv_collect',
+                 'inv_drop']
 THEOREMS = ['Dsd.C09.' + t for t in THEOREM_NAMES]
 ASSUMPTIONS = [
     'split_complex_pt is hand-modelled (Model/Complex.lean: splitScan, splice, splitPt with fuel = number of strands + 1) and tied to '
     'the code by the correspondence stream `split`',
-    'the object-level split() is checked on the real code against the union-find component oracle with every choice of '
-    'pre-existing components (named / automatically named) and automatic-name collisions',
+    'the object-level split() is modelled by World.splitC (tied to the code by the history correspondence of C05 / C09) and is also '
+    'checked on the real code against the union-find component oracle with every choice of pre-existing components (named / '
+    'automatically named) and automatic-name collisions',
+    'the object-level theorems hold in worlds satisfying C09.Inv (registry invariants of C01/C02, every live complex has a coherent, '
+    'well-formed state whose names are its children\'s names); Inv holds in the empty world and is preserved by every World operation',
 ]
 MANIFEST = {
     'text': 'Full for the utility: split_spec (for every well-formed structure the split succeeds; the parts partition the strands, each '
@@ -19,10 +26,15 @@ MANIFEST = {
             'and no others, is closed under pairing and connected - hence the parts are the connected components), '
             'split_connected_id (a connected complex is returned unchanged), split_parts_wellformed, split_fuel_mono; all for any '
             'number and nesting of components. The model is tied to split_complex_pt / split_complex_db by exhaustive correspondence; '
-            'the object-level contract of split() (singleton of every component, identical objects on a second split, SingletonError '
-            'only on an automatic-name collision) is decided on the real code over every subset of pre-existing components, and its '
-            'singleton part rests on the C01/C02 theorems.',
-    'note': 'The object-level split() is checked by the history oracle, not by a separate Lean theorem; trusted base as in DESIGN.md 3.',
+            'the object-level contract of split() is proved on the World model for every world satisfying the invariant C09.Inv (preserved '
+            'by all operations): splitC_no_fault (only handles or one SingletonError), splitC_components (one output per component, '
+            'each the registered singleton of that component\'s rotation class, the live object if one existed), splitC_twice (a second '
+            'split returns the same handles, all old - when the next automatic name is free; counterexample otherwise), '
+            'splitC_connected_self (a connected complex yields itself unless the next automatic name is bound to another complex - the '
+            'behaviour pinned by test_split_exception; counterexample kept), splitC_refusal_reason (a refusal happens only when the '
+            'automatic name needed is bound to a live complex of another rotation class; the handles held before are exactly those '
+            'held afterwards). The same contract is checked on the real code over every subset of pre-existing components.',
+    'note': 'Object-level theorems are about World.splitC, tied to ComplexS.split() by correspondence; trusted base as in DESIGN.md 3.',
     'technique': 'Lean 4 proof by strong induction on the number of strands (splice preserves well-formed matchings); correspondence check; union-find oracle',
 }
 
